@@ -10,7 +10,7 @@ import ast
 
 from ..engine import rule
 from ..model import Undecided
-from ..cfg import same, dotted, call_name, is_call, simple_name, unparse, const_value, contains, enclosing, implied
+from ..cfg import cexpr, same, dotted, call_name, is_call, simple_name, unparse, const_value, contains, enclosing, implied
 from ..flow import Defs, depends, scoped_defs
 from ..decide import table, ret_kind
 from ..util import component_of, component_expr, keyword, returns_of, calls_in, inside, order_key
@@ -339,12 +339,22 @@ def c16d(ctx):
     # creators skip None
     for qn in ('mapproxy/cache/tile.py:TileCreator._create_meta_tile', 'mapproxy/cache/tile.py:TileCreator._create_bulk_meta_tile'):
         f = ctx.fn(qn)
-        comps = [x for x in f.walk_all() if isinstance(x, (ast.GeneratorExp, ast.ListComp)) and
-                 any(same(gen.iter, 'meta_tile.tiles') for gen in x.generators) and
-                 contains(x.elt, lambda y: is_call(y, 'self.is_cached') or (isinstance(y, ast.Name) and y.id == 't'))]
-        need = [x for x in comps if contains(x.elt, lambda y: is_call(y, 'self.is_cached')) or
-                isinstance(getattr(x, '_parent', None), ast.Call) and simple_name(x._parent) == 'imap']
-        ok = bool(need) and all(any('is not None' in unparse(i) for gen in x.generators for i in gen.ifs) for x in need)
+        def none_filtered(e, depth=3):
+            """e (closed form) is a comprehension over meta_tile.tiles that keeps the elements that are not None"""
+            e = cexpr(e) if getattr(e, '_parent', None) is not None or hasattr(e, 'lineno') else e
+            if not isinstance(e, (ast.GeneratorExp, ast.ListComp)) or len(e.generators) != 1:
+                return False
+            gen = e.generators[0]
+            tv = unparse(gen.target)
+            if unparse(e.elt) != tv and not contains(e.elt, lambda y: is_call(y, 'self.is_cached')):
+                return False
+            if any(unparse(i).replace(' ', '') == tv + 'isnotNone' for i in gen.ifs):
+                return unparse(gen.iter).replace(' ', '') == 'meta_tile.tiles' or same(gen.iter, 'meta_tile.tiles') or \
+                    (depth > 0 and none_filtered(gen.iter, depth - 1))
+            return depth > 0 and not gen.ifs and none_filtered(gen.iter, depth - 1)
+        need = [x for x in f.walk_all() if isinstance(x, (ast.GeneratorExp, ast.ListComp)) and contains(x.elt, lambda y: is_call(y, 'self.is_cached'))]
+        need += [x.args[1] for x in f.walk_all() if isinstance(x, ast.Call) and simple_name(x) == 'imap' and len(x.args) > 1]
+        ok = bool(need) and all(none_filtered(x) for x in need)
         ctx.check(ok, '%s:skips-none' % f.short, 'tiles of the meta tile that lie outside the grid (None) are skipped', f,
                   fail='the creator handles tiles of the meta tile whose coordinate is None')
     sm = ctx.fn('mapproxy/cache/tile.py:split_meta_tiles')
